@@ -59,7 +59,7 @@ def _read_frame(fd, timeout=None):
 class Node(object):
     TIMEOUT = 60.0
 
-    def __init__(self, world, node_id, lockstep_kinds=None, tmp_names=None, trace_sql=False):
+    def __init__(self, world, node_id, lockstep_kinds=None, tmp_names=None, trace_sql=False, prelude=True):
         self.world = world
         self.node_id = node_id
         self.alive = True
@@ -74,7 +74,7 @@ class Node(object):
             try:
                 os.close(pr)
                 os.close(pw)
-                _child_main(world, node_id, cr, cw, lockstep_kinds, tmp_names, trace_sql)
+                _child_main(world, node_id, cr, cw, lockstep_kinds, tmp_names, trace_sql, prelude)
             except BaseException:
                 try:
                     import traceback
@@ -164,7 +164,7 @@ class Node(object):
             self._reap()
 
 
-def _child_main(world, node_id, rfd, wfd, lockstep_kinds, tmp_names, trace_sql):
+def _child_main(world, node_id, rfd, wfd, lockstep_kinds, tmp_names, trace_sql, prelude=True):
     # the node never writes to the inherited stdout/stderr (GTF import prints progress)
     devnull = os.open(os.devnull, os.O_WRONLY)
     os.dup2(devnull, 2)
@@ -197,6 +197,7 @@ def _child_main(world, node_id, rfd, wfd, lockstep_kinds, tmp_names, trace_sql):
     from . import ops
 
     state = ops.NodeState(world, node_id, ctx)
+    state.allow_prelude = bool(prelude)
     while True:
         try:
             msg = _read_frame(rfd)
